@@ -6,11 +6,15 @@
     executable specification") is FALSE of the faithful model: three independent
     refutations below (F-C06a dict write, F-C06e stale held proxy, F-C06b proxy
     held across a deletion).  What is proved for all histories is the partial
-    form under a boolean guard; what the guard leaves out is listed there and is
-    covered by the bounded sweep (a test) and by the correspondence search. *)
+    form under a boolean guard -- including, since wave 4, acceptance of the
+    model's whole trace by the executable [spec_ok] itself
+    ([C06_model_trace_meets_spec]); what the guard leaves out is listed there and
+    is covered by the bounded sweep (a test) and by the correspondence search. *)
 From InvokeVerif Require Import Common.Tree Common.StrUtil Model.MergeModel Model.ConfigModel
      Spec.C03Spec Spec.C06Spec Proofs.C03_merge Proofs.C06_shapes Proofs.C06_track Proofs.C06_refine
-     Proofs.C06_witness Proofs.C06_union Proofs.C06_final Proofs.C06_held Proofs.C06_specrun.
+     Proofs.C06_witness Proofs.C06_union Proofs.C06_final Proofs.C06_held Proofs.C06_specrun
+     Proofs.C06_flagship.
+From InvokeVerif Require Proofs.C06_flagship_corr Corr.C06Corr.
 
 (** Representation lemma behind everything: a leaf written at a path where the
     schema has a leaf, with nothing above it marked deleted, turns "journal J"
@@ -39,9 +43,9 @@ Proof. exact inv_delete. Qed.
     MISSING w.r.t. the full statement: dict-valued writes (false: F-C06a), held
     proxies (false: F-C06e, F-C06b; see the held-proxy theorem below for what
     does hold), file levels / clone inside the history (swept below and
-    exercised by the correspondence), comparison of returned values (the
-    theorem is about the view; outcomes are covered by "no internal error" and by
-    the sweep).
+    exercised by the correspondence).  Returned values: this theorem is about
+    the view; [C06_model_trace_meets_spec] below adds outcomes and the whole
+    executable [spec_ok].
     Under the guard the view after the history shows, at every path, exactly
     what the journal of successful edits replayed over the merge of the CURRENT
     lower levels shows ([sim]: same leaf value / section / nothing at every
@@ -78,10 +82,9 @@ Proof. exact union_sim_merge. Qed.
     two dicts may differ), and navigation fails in both or neither with the same
     exception class.  (popitem is judged by the spec on the observed key.)
     By induction the reference state of [spec_ok]'s judge stays [sim] to the
-    model's view along a guarded history; what is NOT proved is the boolean
-    [spec_ok] itself on the model's trace (returned values compared with
-    [dict_equiv], and the levels read off the script by [supplied_of] -- the C03
-    composition): that part is the bounded sweep and the correspondence. *)
+    model's view along a guarded history; the boolean [spec_ok] itself on the
+    model's trace (returned values compared with [dict_equiv], the levels read
+    off the load calls by [supplied_of]) is [C06_model_trace_meets_spec] below. *)
 Theorem C06_model_decisions_are_spec_decisions : forall c st o out,
   sim (Node (c_cache c)) (Node st) -> literal_op o = true ->
   snd (nd_step st o out) = events_of c o.
@@ -96,6 +99,95 @@ Theorem C06_navigation_errors_agree : forall c st fl kp,
   sim (Node (c_cache c)) (Node st) ->
   forall e, nav fl (c_cache c) kp = Err e <-> walk fl st kp = Err e.
 Proof. exact nav_errors_agree. Qed.
+
+(** FLAGSHIP AGAINST THE SPECIFICATION ITSELF.  For EVERY file system, constructor
+    arguments and history of root-navigated operations inside the guard, the
+    model's own trace -- outcome, deep view and environment level after every
+    call -- is accepted by the executable specification [C06Spec.spec_ok]:
+    every returned value / exception is the one the nested dict gives
+    ([out_match]: values compared as dicts), after every call the view equals
+    the reference dict ([tree_equiv]), the reference being the journal of the
+    successful edits replayed over the deep union of the levels the
+    specification reads off the load calls ([supplied_of], through C03's
+    [corr_levels]), and the environment level changes only at load_shell_env.
+    Guard: [good0 S c0] (the levels the constructor merged conform to a schema
+    [S]; no edits yet), [op_ok S] on every call (as in the partial theorem above:
+    reads, deletions, clear, popitem, LEAF writes where the schema has leaves,
+    conforming reloads of defaults/collection/overrides, load_shell_env with any
+    environment) and [op_wf] (default values handed to pop / get / setdefault
+    are well-formed trees: a Python dict cannot have duplicate keys).
+    NOT covered (each is a recorded refutation or a labelled test below):
+    dict-valued writes (F-C06a), operations through held proxies (F-C06e,
+    F-C06b), file-level reloads / clone inside the history (bounded sweep). *)
+Theorem C06_model_trace_meets_spec : forall S fs i c0 ops,
+  is_node S = true -> start fs i = Ok c0 -> good0 S c0 = true ->
+  forallb (hist_ok S) ops = true ->
+  C06Spec.spec_ok fs i (Node (c_cache c0)) (mtrace fs c0 ops) = true.
+Proof. exact model_trace_meets_spec. Qed.
+
+(** The same on the correspondence record whose observations are the session
+    model's ([srun] on [map Plain ops]): accepted by [C06Corr.spec]. *)
+Theorem C06_model_case_meets_spec : forall S fs i c0 ops,
+  is_node S = true -> start fs i = Ok c0 -> good0 S c0 = true ->
+  forallb (hist_ok S) ops = true ->
+  C06Corr.spec (C06_flagship_corr.model_case fs i c0 ops) = true.
+Proof. exact C06_flagship_corr.model_case_meets_spec. Qed.
+
+(** [mtrace] is the session model's trace paired with the calls. *)
+Theorem C06_mtrace_is_session_trace : forall fs ops s,
+  C06Corr.zip_trace (map Plain ops)
+    (map C06_flagship_corr.view_step (snd (srun fs s (map Plain ops)))) = mtrace fs (s_cfg s) ops.
+Proof. exact C06_flagship_corr.mtrace_srun. Qed.
+
+(** Two pieces of the flagship that read well on their own.  (1) Under the
+    guard the model's outcome IS the nested dict's outcome computed on the
+    model's own view, and the journal entries are the nested dict's. *)
+Theorem C06_model_outcome_is_nested_dict_outcome : forall S fs c J o,
+  is_node S = true -> good S c J -> op_ok S o = true -> guarded_path_op o = true ->
+  snd (step fs c o) = fst (nd_step (c_cache c) o (snd (step fs c o))) /\
+  snd (nd_step (c_cache c) o (snd (step fs c o))) = events_of c o /\
+  lower (fst (step fs c o)) = lower c.
+Proof. exact model_out_is_nd_out. Qed.
+
+(** (2) The nested-dict step gives matching outcomes on any two well-formed
+    dicts that show the same at every path (key order may differ). *)
+Theorem C06_nested_dict_step_respects_dict_equality : forall d1 d2 o obs,
+  wf (Node d1) = true -> wf (Node d2) = true -> sim (Node d1) (Node d2) ->
+  guarded_path_op o = true -> op_wf o = true ->
+  out_match (fst (nd_step d2 o obs)) (fst (nd_step d1 o obs)) = true.
+Proof. exact nd_out_sim. Qed.
+
+Theorem C06_same_shapes_are_equal_dicts : forall a b,
+  wf a = true -> wf b = true -> sim a b -> tree_equiv a b = true.
+Proof. exact sim_tree_equiv. Qed.
+
+(** Non-vacuity of the flagship: a history inside the guard (leaf write,
+    deletion, pop with default, clear, popitem, setdefault, update, reload that
+    re-supplies deleted keys, load_shell_env, reads) whose judged trace has one
+    entry per call, starts in scope, and is NOT accepted when one returned value
+    in it is altered -- the judge runs to the end and bites. *)
+Example C06_flagship_example :
+  let S := Node [("a", Node [("x", Leaf VNone); ("y", Leaf VNone)]); ("k", Leaf VNone)] in
+  let d0 := Node [("a", Node [("x", Leaf (VInt 0)); ("y", Leaf (VInt 0))]); ("k", Leaf (VInt 1))] in
+  let i := mkInit d0 (Node []) None None false in
+  let ops := [SetV Item ["a"] "x" (Leaf (VInt 1)); Del Attr ["a"] "y"; Pop Item [] "zz" (Some (Leaf (VInt 7)));
+              Clear Item ["a"]; SetDefault Item ["a"] "x" None;
+              LoadDefaults (Node [("a", Node [("y", Leaf (VInt 5))]); ("k", Leaf (VInt 2))]);
+              LoadShellEnv [("INVOKE_K", "4")]; PopItem Item [];
+              Update Item [] [("k", Leaf (VInt 3))]; Get Item [] "k"; Keys Item []] in
+  match start [] i with
+  | Ok c0 =>
+      good0 S c0 = true /\ forallb (hist_ok S) ops = true /\
+      scope_ok [] i [] (Node []) = true /\
+      List.length (mtrace [] c0 ops) = 11 /\
+      C06Spec.spec_ok [] i (Node (c_cache c0)) (mtrace [] c0 ops) = true /\
+      C06Spec.spec_ok [] i (Node (c_cache c0))
+        (map (fun x => match x with
+                       | (Plain (Get fl kp k), _, v, e) => (Plain (Get fl kp k), OVal (Leaf (VInt 99)), v, e)
+                       | _ => x end) (mtrace [] c0 ops)) = false
+  | Err _ => False
+  end.
+Proof. vm_compute. repeat split; reflexivity. Qed.
 
 (** The same with HELD nested proxies in the history ([Hold h fl kp]: [h = c.<kp>];
     [Via h o]: operation [o] through the held proxy, which reads and decides from
